@@ -31,6 +31,8 @@ def reorg_fix_expected():
     """The spec models reorganizeChain as the code has it (a failed switch strands the node on
     the fork prefix: named deviation, constant FixFailedReorg = FALSE) while that finding is
     open; once it is fixed the repaired behaviour is the expected one."""
+    if os.environ.get("VERIF_ASSUME_REORG_FIX"):
+        return True
     return not any(k.get("key") == "C12:failed-reorg-strands-node" and k.get("status", "open") == "open"
                    for k in vf.load_known())
 
